@@ -373,9 +373,124 @@ fn check_faulty_prefix(st: &mut St, prefix: &[u8], hdr: Option<&[u8]>, slot: usi
     }
 }
 
+// ------------------------------------------------------ resynchronisation sweep
+
+use mc::lex::SIGMA_PAYLOAD as SIGMA_RESYNC;
+use mc::mainx::first_message_end;
+
+#[derive(Default)]
+struct Rs {
+    groups: Groups,
+    strings: u64,
+    valid: u64,
+    valid_with_payload_newline: u64,
+    execs: u64,
+}
+
+/// The violations of one candidate; `None` if x is not a sound message followed by nothing else.
+fn resync_case(x: &[u8], st: Option<&mut Rs>) -> Vec<(&'static str, String, Vec<u8>, J)> {
+    let mut found = vec![];
+    let mut y = x.to_vec();
+    y.extend_from_slice(b"B?\n");
+    let (o, base) = run_obs(&y, Pattern::NONE);
+    if o.end != End::Returned || !base.errs.is_empty() || base.calls.last().map(|c| &c[..]) != Some(&b"B?()"[..]) {
+        return found;
+    }
+    let Some(p) = first_message_end(&y) else { return found };
+    if p > x.len() {
+        // the message swallowed the appended query (open string / block): not a candidate
+        return found;
+    }
+    // what follows the first message, on its own
+    let (o2, rest) = run_obs(&y[p..], Pattern::NONE);
+    if o2.end != End::Returned || !rest.errs.is_empty() {
+        return found;
+    }
+    let inner_newline = x[..p - 1].contains(&b'\n');
+    if let Some(st) = st {
+        st.valid += 1;
+        st.execs += 2;
+        if inner_newline {
+            st.valid_with_payload_newline += 1;
+        }
+    }
+    for (prefix, errs) in [(&b"Z;"[..], 1usize), (b"@;", 1), (b"B 300;", 1)] {
+        let mut z = prefix.to_vec();
+        z.extend_from_slice(&y);
+        // B 300 is an execution-time fault: the units behind it run ("all or none": here all)
+        let exec_fault = prefix == b"B 300;";
+        let mut engines: Vec<(&'static str, Obs)> = vec![("run", run_obs(&z, Pattern::NONE).1)];
+        if z.len() <= 64 {
+            engines.push(("process-whole", proc_obs(64, &z, &[z.len()], Pattern::NONE).1));
+            engines.push(("process-bytes", proc_obs(64, &z, &env::regular(z.len(), 1), Pattern::NONE).1));
+        }
+        for (engine, obs) in engines {
+            let expected_calls: Vec<Vec<u8>> = if exec_fault { base.calls.clone() } else { rest.calls.clone() };
+            let expected_out: Vec<u8> = if exec_fault { base.out.clone() } else { rest.out.clone() };
+            if obs.errs.len() != errs || obs.calls != expected_calls || obs.out != expected_out {
+                found.push((
+                    engine,
+                    format!(
+                        "{engine}(\"{}\"): observed {} ; the parser ends the first message behind byte {} of \"{}\", so one error and calls {:?} output \"{}\" are specified",
+                        show(&z),
+                        obs.show(),
+                        p,
+                        show(&y),
+                        expected_calls.iter().map(|c| show(c)).collect::<Vec<_>>(),
+                        show(&expected_out)
+                    ),
+                    z.clone(),
+                    json!({"engine": "resync", "x": hex(x), "payload_newline": inner_newline, "exec_fault": exec_fault, "which": engine}),
+                ));
+            }
+        }
+    }
+    found
+}
+
+impl mc::lex::Visitor for Rs {
+    fn visit(&mut self, x: &[u8], _ntok: usize, _last: usize) {
+        self.strings += 1;
+        if x.last() != Some(&b'\n') {
+            return;
+        }
+        self.execs += 1;
+        let x = x.to_vec();
+        let found = resync_case(&x, Some(self));
+        for (engine, desc, z, wit) in found {
+            let f = vec![
+                ("engine", engine.to_string()),
+                ("kind", "faulty-first-unit-changes-where-the-message-ends".to_string()),
+                ("payload_contains_newline", wit["payload_newline"].to_string()),
+                ("execution_time_fault", wit["exec_fault"].to_string()),
+            ];
+            self.groups.add("resynchronisation", &f, (z.len(), &z), || (wit.clone(), desc.clone()));
+        }
+    }
+}
+
 fn replay(path: &str) -> ! {
     let j: J = serde_json::from_str(&std::fs::read_to_string(path).unwrap()).unwrap();
     let w = &j["witness"];
+    if w["engine"] == "resync" {
+        let x = unhex(w["x"].as_str().unwrap());
+        let which = w["which"].as_str().unwrap().to_string();
+        let exec_fault = w["exec_fault"] == true;
+        let mut bad = [false; 2];
+        for r in 0..2 {
+            let found = resync_case(&x, None);
+            for f in &found {
+                println!("round {r}: {}", f.1);
+            }
+            bad[r] = found.iter().any(|f| f.0 == which && (f.3["exec_fault"] == true) == exec_fault);
+        }
+        if bad[0] != bad[1] {
+            println!("MACHINERY-ERROR replay is not deterministic");
+            std::process::exit(2);
+        }
+        println!("{}", if bad[0] { "REPRODUCED" } else { "NOT-REPRODUCED" });
+        std::process::exit(if bad[0] { 1 } else { 0 });
+    }
     let input = unhex(w["input"].as_str().unwrap());
     if let Some(tw) = w["twin"].as_str() {
         let twin = unhex(tw);
@@ -503,7 +618,31 @@ fn main() {
         }
     });
     let mut out = Outcome::new("C08");
+    // (c) resynchronisation sweep: every token string that is a sound message, behind a faulty first unit
+    let resync_len = if thorough { 7 } else { 6 };
+    let rs = mc::lex::sweep(
+        SIGMA_RESYNC,
+        resync_len,
+        args.threads,
+        args.seed,
+        Rs::default,
+        |_, _, _| {},
+        600,
+        |p, k| {
+            println!("HANG engine=resync-sweep partition={p} case={k}");
+            std::process::exit(3);
+        },
+    );
+    let mut rt = Rs::default();
+    for r in rs {
+        out.groups.merge(r.groups);
+        rt.strings += r.strings;
+        rt.valid += r.valid;
+        rt.valid_with_payload_newline += r.valid_with_payload_newline;
+        rt.execs += r.execs;
+    }
     let mut t = St::default();
+    t.execs += rt.execs + 9 * rt.valid;
     for s in res {
         out.groups.merge(s.groups);
         t.cases += s.cases;
@@ -535,6 +674,9 @@ fn main() {
                "chunkings": format!("all compositions up to {full_comp} bytes, else every single cut and every pair of cuts + regular 1/2/3"),
                "N": "smallest instantiated N >= |m|, next larger, >= 2|m|, 64",
                "faulty_unit_before_the_payload": {"prefix_units": ["Z", "@", "B 300", "A:X", "A:B 1", "B 1 2"], "cases": fcases.len(), "payload_unit_itself_faulty": {"headers": [":Z", ":A:Y", ":B", ":A:Q?", "Z:Z"], "behind": ":E"}, "oracle": "same observation as with every payload newline replaced by 'x'"},
+               "resynchronisation_sweep": {"alphabet": SIGMA_RESYNC.iter().map(|t| show(t)).collect::<Vec<_>>(), "max_tokens": resync_len,
+                    "token_strings": rt.strings, "sound_messages_among_them": rt.valid, "of_these_with_a_payload_newline": rt.valid_with_payload_newline,
+                    "oracle": "x followed by B? is executed without error; with a faulty unit (Z / @ / B 300) put in front, exactly one error is reported and what runs is what follows the first message as the parser delimits it (everything, for the execution-time fault), through run and process::<64> (one read, one byte per read)"},
                "cases": t.cases, "cases_with_newline_in_payload": t.newline_payloads, "process_executions": t.chunkings}),
     );
     out.cov("skipped_crashing_executions", t.crashed);
